@@ -3,7 +3,8 @@ from plib import *
 from props.common import LineRunner
 from props.pcommon import *
 
-LEAN_TARGETS = ["Plonk.Props.C06"]
+EXTRA_AUDITS = ["ProverTie"]
+LEAN_TARGETS = ["Plonk.Props.C06", "Plonk.Props.ProverTie"]
 ASSUMPTIONS = ["statistical zero-knowledge itself (existence of a simulator) is not proved; the property as worded — mask shape, "
                "draw discipline, no shared commitment/evaluation — is",
                "commitments of the model prover are [p(x)]g (trapdoor view)"]
